@@ -362,6 +362,88 @@ func runFF(c ffCase, rec *pb.Rec) error {
 	return nil
 }
 
+// requested capacities of every magnitude: Cap() and the behaviour at the boundary "exactly Cap held"
+type capCase struct {
+	Req  int
+	Sync bool
+}
+
+func genCap(t *rapid.T) capCase {
+	k := rapid.IntRange(0, 22).Draw(t, "log2")
+	var req int
+	switch rapid.IntRange(0, 2).Draw(t, "shape") {
+	case 0:
+		req = 1<<k + rapid.IntRange(-2, 2).Draw(t, "d")
+	case 1:
+		req = 1<<k + rapid.IntRange(0, 1<<k).Draw(t, "off") // uniform within the octave
+	default:
+		req = 1<<k | rapid.IntRange(0, 3).Draw(t, "low") | rapid.IntRange(0, 1).Draw(t, "mid")<<(k/2) // sparse bit patterns
+	}
+	if req < 1 {
+		req = 1
+	}
+	if req > 1<<22 {
+		req = 1 << 22
+	}
+	return capCase{Req: req, Sync: rapid.IntRange(0, 3).Draw(t, "sync") != 0}
+}
+
+func runCap(c capCase, rec *pb.Rec) error {
+	if c.Req < 1 || c.Req > 1<<22 {
+		return nil
+	}
+	type queue interface {
+		Push(int) bool
+		Pop() (int, bool)
+		Len() int
+		Cap() int
+		IsFull() bool
+		IsEmpty() bool
+	}
+	var q queue
+	wantCap := c.Req
+	if c.Sync {
+		wantCap = 2
+		for wantCap < c.Req {
+			wantCap <<= 1
+		}
+		r := ringz.NewSync[int](c.Req)
+		q = &r
+	} else {
+		r := ringz.New[int](c.Req)
+		q = &r
+	}
+	if q.Cap() != wantCap {
+		return fmt.Errorf("requested capacity %d (SyncRing=%v): Cap() = %d want %d", c.Req, c.Sync, q.Cap(), wantCap)
+	}
+	// fill completely, one more push must fail, everything comes back in order
+	for i := 0; i < wantCap; i++ {
+		if !q.Push(i) {
+			return fmt.Errorf("requested capacity %d (SyncRing=%v, Cap %d): Push #%d failed with Len=%d", c.Req, c.Sync, wantCap, i+1, q.Len())
+		}
+		if i < 4 || i > wantCap-4 {
+			if q.Len() != i+1 || q.IsFull() != (i+1 == wantCap) || q.IsEmpty() {
+				return fmt.Errorf("requested capacity %d (SyncRing=%v): after %d pushes Len=%d IsFull=%v IsEmpty=%v", c.Req, c.Sync, i+1, q.Len(), q.IsFull(), q.IsEmpty())
+			}
+		}
+	}
+	if q.Push(-1) {
+		return fmt.Errorf("requested capacity %d (SyncRing=%v): Push succeeded with Cap()=%d elements held", c.Req, c.Sync, wantCap)
+	}
+	for i := 0; i < wantCap; i++ {
+		if v, ok := q.Pop(); !ok || v != i {
+			return fmt.Errorf("requested capacity %d (SyncRing=%v): Pop #%d = %d,%v", c.Req, c.Sync, i+1, v, ok)
+		}
+	}
+	if _, ok := q.Pop(); ok || q.Len() != 0 || !q.IsEmpty() || q.IsFull() {
+		return fmt.Errorf("requested capacity %d (SyncRing=%v): drained ring: Len=%d IsEmpty=%v IsFull=%v", c.Req, c.Sync, q.Len(), q.IsEmpty(), q.IsFull())
+	}
+	rec.ClassIf(c.Req > 1<<17, "requested capacity above 2^17")
+	rec.ClassIf(c.Sync && c.Req&(c.Req-1) != 0, "SyncRing rounds up")
+	rec.NonTrivialIf(c.Req > 64)
+	return nil
+}
+
 // honest wrap-around: more than 2^32 push/pop pairs (thorough tier); shard = capacity choice
 func TestWrapHonest(t *testing.T) {
 	shard, _ := strconv.Atoi(os.Getenv("VERIF_SHARD"))
@@ -439,6 +521,9 @@ func init() {
 	pb.Register("syncring_sequential", pb.Options{Base: 15000, Required: []string{"counter within Cap of 2^32", "wrap crossed", "exact power of two requested", "capacity 1 requested"},
 		Rule: "SyncRing with requested capacity 1..40 (Cap = next power of two >= max(2,c)), optionally fast-forwarded (self-validated reflection helper) to the state k push/pop pairs produce with k near 2^32, near 2^31 or uniform, then filled to a drawn level; <= 60 operations Push/Pop/PushWait(0)/PopWait(0)/rotate; oracle: slice model, Len/IsEmpty/IsFull/Cap after every step, final drain; non-trivial = a push executed with the tail counter within Cap of 2^32"},
 		genSync, runSync)
+	pb.Register("capacity", pb.Options{Base: 120, Required: []string{"requested capacity above 2^17", "SyncRing rounds up"},
+		Rule: "requested capacity 1..2^22 (2^k-2..2^k+2, uniform within an octave, sparse bit patterns) for Ring and SyncRing; oracle: Cap() = requested (Ring) / smallest power of two >= max(2, requested) (SyncRing), exactly Cap() pushes succeed, the next fails, all values come back in FIFO order, Len/IsEmpty/IsFull at both ends; non-trivial = requested capacity > 64"},
+		genCap, runCap)
 	pb.Register("fastforward_selfcheck", pb.Options{Base: 1500,
 		Rule: "harness self-validation: for k in 0..300 the fast-forward helper's result (head, tail, every slot sequence number) equals honest stepping; non-trivial = k > Cap"},
 		genFF, runFF)
